@@ -385,10 +385,22 @@ def unit_sampling_bounded(kind, ndim, tier):
 
 
 def replay(ob):
-    if ob.get('unit', '').startswith('sampling/') or ob.get('unit', '').startswith('resampling/'):
+    if ob.get('unit', '').startswith('sampling/') or ob.get('unit', '').startswith('resampling/') or ob.get('unit', '').startswith('interp-native/'):
         from contracts import replay_c15
         return replay_c15.replay(ob)
     return {'reproduced': False, 'detail': 'no native concretisation for this obligation kind'}
+
+
+def unit_interp_native_bounded():
+    """BOUNDED (never counted as proved): node values stored in C order, Fortran order, as transposed and strided views (the deductive units see the values through an index
+    function, not a memory layout), 2 and 3 axes, linear / nearest / mixed per-axis schemes at random points between the nodes; Resampling between spaces over the same set,
+    also with EQUAL shapes and different node placement, in-place and out-of-place, against the interpolant evaluated at the grid points of the range."""
+    def run(ctx):
+        from contracts import replay_c15
+        for case, bad in replay_c15.interp_native_cases():
+            ctx.bounded('interpolation agrees with the reference for this memory layout / pair of spaces', not bad, case, detail=bad)
+    return Unit('interp-native/layouts-and-resampling', run, funcs=[DU + '_PerAxisInterpolator._evaluate', DU + '_NearestInterpolator._evaluate', 'odl.discr.discr_ops:Resampling._call'], kind='B',
+                bounded_in='2 grids (2 and 3 axes) x 4 memory layouts x 4 schemes, 10 pairs of spaces x 2 schemes')
 
 
 def units(tier, seed):
@@ -411,5 +423,6 @@ def units(tier, seed):
     for kind in replay_c15.KINDS:
         for ndim in (1, 2):
             us.append(unit_sampling_bounded(kind, ndim, tier))
+    us.append(unit_interp_native_bounded())
     us.append(unit_canary())
     return us
